@@ -28,6 +28,8 @@ TNext ==
        [] e.k = "cdone" -> e.ok = TRUE
        \* the same Listen / Dial from several goroutines at once on one endpoint: one starts it, the others find it active
        [] e.k = "cone" -> e.mostok <= 1 /\ e.other = 0
+       \* contexts and their socket closed from several goroutines at once: every Close says nil or ErrClosed
+       [] e.k = "cctx" -> e.other = 0
        [] e.k = "cres" -> e.r \in Allowed(e.op) \/ (e.op = "dial" /\ IsOsError(e.r))
        [] OTHER -> FALSE
 TSpec == TInit /\ [][TNext]_l
